@@ -585,7 +585,7 @@ def run(ck):
         if se.fam != "cbc": continue
         outs = {}
         for i, m in enumerate(meta):
-            if m and m[0] is se and m[4] == ("fatal",) and m[2].startswith("forged:cbc"):
+            if m and m[0] is se and m[4] == ("fatal",) and m[2].startswith("forged:cbc") and "size" not in m[2]:
                 outs.setdefault(canon_impl(impl[i]), []).append(m[2])
         if len(outs) > 1:
             ck.spec_violation("padding-oracle-in-result:%s" % se.name, "padding failures and MAC failures are answered differently: %s" % {k: v[:2] for k, v in outs.items()},
@@ -634,7 +634,7 @@ def dtls_to_tls(dg):
 
 
 def dtls_part(ck, h, drv, thorough):
-    msgs = [("c", b"hello"), ("c", b"hi"), ("c", pat(32, 0x30)), ("s", b"yyy"), ("s", b"reply")]
+    msgs = [("c", b"hello"), ("c", b"hi"), ("c", pat(32, 0x30)), ("s", b"yyy"), ("s", b"reply"), ("s", pat(32, 0x60))]
     cfgs = [(n, su) for n, su, tier in DTLS_CONFIGS if thorough or tier == "quick"]
     keys = ["suite=%s seed=%d msgs=%s" % (su, ck.seed % 1000 + 1, ",".join("%s:%s" % (a, m.hex()) for a, m in msgs)) for n, su in cfgs]
     rc, caps, _ = ck.run_lines(h, ["dcap %s |" % k for k in keys], timeout=600)
